@@ -88,6 +88,35 @@ def pass_exhaustiveness(prog, rep, R):
         rep.check(ok, R, "exhausted=tree.explored()", "PassIter::next no longer sets `exhausted` from `tree.explored()` exactly", instance={"stores": len(st)})
 
 
+    # typestate of `explored`: a flat section is born unexplored, and becomes explored only where its tokens are put into a pass
+    born, other = 0, []
+    for k, x in prog.bodies.items():
+        if DT not in k or "::tests::" in k:
+            continue
+        for bb, i, s2 in x.stmts():
+            if s2["k"] == "assign" and s2["rv"]["k"] == "aggregate" and s2["rv"].get("agg") == "adt" and norm(s2["rv"].get("adt", "")) == DT + "Section" and s2["rv"].get("variant") == "Flat":
+                fields = s2["rv"].get("fields") or []
+                op = s2["rv"]["ops"][fields.index("explored")] if "explored" in fields else None
+                if op is not None and op["k"] == "const" and op.get("bool") is False:
+                    born += 1
+                else:
+                    other.append("%s builds a flat section whose `explored` is %s" % (short(k), canon(x, op) if op is not None else "?"))
+    for a in prog.field_accesses(DT + "Section", "explored"):
+        x, bb, i, kind = a[0], a[1], a[2], a[3]
+        if "::tests::" in x.npath or kind not in ("write", "refmut"):
+            continue
+        # where the field can be written: behind the point where the section's tokens were added to the pass
+        R2 = x.reach_from(bb, include_start=True)
+        ext = [c for c in x.calls() if (c.callee or "").split("::")[-1] in ("extend", "extend_from_slice", "push", "append") and c.bb in R2]
+        stores = [(b2, s3) for b2, _, s3 in x.stmts() if b2 in R2 and s3["k"] == "assign" and s3["dst"]["p"] and s3["dst"]["p"][-1]["k"] == "deref" and x.locals[s3["dst"]["l"]]["ty"] == "&mut bool"]
+        if not ext or any(not any(c.bb == b2 or x.dominates(c.bb, b2) for c in ext) for b2, _ in stores):
+            other.append("%s can set a section's `explored` where no tokens are added to a pass" % short(x.npath))
+    rep.check(born >= 1 and not other, R, "sections-are-born-unexplored",
+              "a section of the conditional-directive tree is marked as explored without its tokens having been put into a pass (%s): the pass iterator only schedules unexplored "
+              "branches, so the tokens of such a branch (a branch that holds only comments ..) can be in no pass at all and end up in no logical line" % (other[:2] or "no flat section is built any more"),
+              instance={"flat_sections_built_unexplored": born, "other": other[:3]})
+
+
 def i_is_explored(nb, acc):
     b, bb, i, kind, s = acc
     if i == "term" or s["rv"]["k"] != "use":
